@@ -6,7 +6,10 @@ PATCH="$(readlink -f "$1")"; ID="$2"; TIER="${3:-quick}"
 cd /verif
 if [ -n "$(git -C /repo status --porcelain)" ]; then echo "/repo is dirty" >&2; exit 3; fi
 git -C /repo apply "$PATCH" || { echo "patch does not apply" >&2; exit 3; }
-trap 'git -C /repo checkout -- . ' EXIT
+# keep the committed evidence of the unchanged tree: a mutant run must not replace it
+EVID=/verif/evidence/$ID.json
+[ -f "$EVID" ] && cp "$EVID" /tmp/evidence.$ID.keep
+trap 'git -C /repo checkout -- . ; [ -f /tmp/evidence.'$ID'.keep ] && mv /tmp/evidence.'$ID'.keep '$EVID EXIT
 START=$(date +%s)
 ./run.sh "$ID" "$TIER" > /tmp/mutant.out 2> /tmp/mutant.err
 RC=$?
